@@ -94,4 +94,18 @@ CHECKS = {
         technique='static constant-table conformance and inversion check over AST initialiser lists, plus structural rules on the codec functions',
         design_ref='3-G, 4-C16',
     ),
+    'C07': dict(
+        category='other',
+        text='Decides the structural clauses of relocatability and boundedness, not well-formedness of every reachable image: I1 '
+             'the image record types are pointer-free (type fact, recursively through nested records); I2 no pointer-to-integer '
+             'conversion and no pointer store into image fields, image fields touched in qhasharr.c only; I3 attach (memsize 0) '
+             'writes nothing to the region; I4 every memcpy/memset into a slot array member and the uint8_t length field are '
+             'bounded (upper-bound dataflow with compiler-evaluated sizeof, for the actual Q_HASHARR_* knob values); I5 header '
+             'counters are written only by put_data/remove_data/clear/constructor; I6 every slot move is followed on all paths by '
+             'the release of the source slot and the back-link repair.',
+        note='Slot indexes taken from stored link/hash fields or from callers are assumed in range (image invariant / API contract) '
+             'and listed, not proved; sizeof values come from the compiler.',
+        technique='static type-shape check, who-may-access/write rules, upper-bound (clamp) dataflow and must-pass-through CFG rule over clang JSON AST',
+        design_ref='3-D I4, 3-G, 4-C07',
+    ),
 }
